@@ -86,7 +86,7 @@ def parseKK : String → Option KeyKind
   | "bytes" => some .bytes | "int" => some .int | "uint" => some .uint | "sk" => some .sk | "skc" => some .skc | "strx" => some .strx | _ => none
 def parseVK : String → Option ValKind
   | "u64" => some .u64 | "bytes" => some .bytes | "str" => some .str
-  | "ptr" => some .ptr | "iface" => some .iface | "long" => some .long | "nb" => some .nb | "esc" => some .esc | "np" => some .np | _ => none
+  | "ptr" => some .ptr | "iface" => some .iface | "long" => some .long | "nb" => some .nb | "esc" => some .esc | "np" => some .np | "agg" => some .agg | _ => none
 
 partial def step (s : St) (line : String) : St × String :=
   let toks := (line.trimAscii.toString.splitOn " ").filter (· ≠ "")
